@@ -5,7 +5,7 @@
    displacement kind, binds, data, gaps, section switches, embedded labels, label deltas, layout+cross-section resolution). *)
 From Coq Require Import ZArith List Bool.
 From Verif Require Import Codec.OffsetModel Labels.LabelsModel Labels.LabelsProofs Labels.LabelsExact Labels.LabelsAbs
-  Labels.FlatModel Labels.FlatLemmas Labels.FlatProofs Labels.SparseModel Labels.SparseProofs.
+  Labels.FlatModel Labels.FlatLemmas Labels.FlatProofs Labels.SparseModel Labels.SparseProofs Labels.A64Dec.
 Import ListNotations.
 Local Open Scope Z_scope.
 
@@ -292,3 +292,29 @@ Print Assumptions C03_sparse_refines.
 Theorem C03_sparse_errors_agree : forall ops o, snd (fstep (frun finit ops) o) = snd (sstep (srun sinit ops) o).
 Proof. exact sparse_errors_agree. Qed.
 Print Assumptions C03_sparse_errors_agree.
+
+(* ---- round 4: architectural meaning of the patched AArch64 words through a STRUCTURAL decoder (Labels.A64Dec, written from ARM ARM C4.1.3 /
+   C6.2 for B, BL, B.cond, CBZ/CBNZ, TBZ/TBNZ, ADR, ADRP, LDR/LDRSW/PRFM literal, LDR literal SIMD&FP) ---- *)
+Theorem C03_a64_dec_enc : forall i, a64_wf i -> a64_dec (a64_enc i) = Some i.
+Proof. exact a64_dec_enc. Qed.
+Print Assumptions C03_a64_dec_enc.
+
+(* the word = (instruction emitted with a zero displacement field) OR (encoded displacement off), i.e. what every resolved reference holds
+   by C03_resolved_exact*, decodes to that very instruction with the displacement and designates pc + off (ADRP: Page(pc) + off) *)
+Theorem C03_a64_patched_meaning : forall i off m pc,
+  a64_wf (set_imm i 0) -> hole_ok (kind_of i) (a64_enc (set_imm i 0)) = true -> int64 off ->
+  encode_offset (fmt_of_kind (kind_of i)) off = Some m ->
+  let w := Z.lor (a64_enc (set_imm i 0)) m in
+  let v := off / 2 ^ discard (fmt_of_kind (kind_of i)) in
+  a64_dec w = Some (set_imm i v) /\
+  a64_site_target pc w = Some (match i with IAdr true _ _ => ((pc - pc mod 4096) + off) mod 2 ^ 64 | _ => (pc + off) mod 2 ^ 64 end).
+Proof. exact a64_patched_meaning. Qed.
+Print Assumptions C03_a64_patched_meaning.
+
+Theorem C03_a64_patched_meaning_witness :
+  let i := ICb true false 5 0 in
+  a64_wf (set_imm i 0) /\ hole_ok (kind_of i) (a64_enc (set_imm i 0)) = true /\
+  exists m, encode_offset (fmt_of_kind (kind_of i)) 1048572 = Some m /\
+            a64_site_target 4096 (Z.lor (a64_enc (set_imm i 0)) m) = Some (4096 + 1048572).
+Proof. exact a64_patched_meaning_witness. Qed.
+Print Assumptions C03_a64_patched_meaning_witness.
